@@ -347,3 +347,18 @@ impl<F: std::io::Write> std::io::Write for Counter<F> {
         self.stream.flush()
     }
 }
+
+// verification hooks (add-only): the shared model environment and the
+// harnesses for this module live outside the repository and are compiled
+// only by the Kani compiler, which is what sets `cfg(kani)`
+#[cfg(kani)]
+#[allow(dead_code, unused_imports, unused_variables, missing_docs)]
+pub(crate) mod verif_env {
+    include!(concat!(env!("FLAC_CODEC_VERIF_KANI"), "/env.rs"));
+}
+
+#[cfg(kani)]
+#[allow(dead_code, unused_imports, unused_variables, missing_docs)]
+mod verif_kani {
+    include!(concat!(env!("FLAC_CODEC_VERIF_KANI"), "/k_lib.rs"));
+}
